@@ -60,6 +60,7 @@ E_UnknownObject == S_org_freedesktop_DBus_Error_UnknownObject
 E_UnknownInterface == S_org_freedesktop_DBus_Error_UnknownInterface
 E_NoReply == S_org_freedesktop_DBus_Error_NoReply
 E_NotSupported == S_org_freedesktop_DBus_Error_NotSupported
+E_NoMemory == S_org_freedesktop_DBus_Error_NoMemory
 
 \* destination of the driver's replies: replies are made from the call, whose sender the bus stamped as
 \* ":not.active.yet" for a connection that has not said Hello (named: RepliesToUnregisteredCarryPlaceholder)
@@ -483,6 +484,36 @@ BecomeMonitor(s, ser, fl, texts, flags, order) ==
 MonitorSpeaks(s) == cst[s] = "monitor" /\ Kill(s) /\ out' = <<>>
 
 \* ------------------------------------------------------------------ routed messages (bus/dispatch.c)
+
+\* ---- out of memory while the bus handles a request (C14): the transaction is cancelled, nothing of the request
+\* takes effect, nobody but the caller hears of it, and the caller gets the (preallocated) NoMemory error
+OomAbort(s, ser) ==
+  /\ CanTalk(s)
+  /\ out' = <<To(s, Msg(3, BUS, <<>>, 0, ser, <<>>, <<>>, <<>>, E_NoMemory, <<>>, <<>>, 1, 0, "errtext"))>>
+  /\ UNCHANGED <<cfg, cst, dying, uid, uname, everNames, queue, rules, pend, mon>>
+
+\* KNOWN DEFECT (deviation OomKeepsQueueChange): changes to the waiting queue that do not change the primary owner
+\* are made outside the transaction -- a queued owner leaving (ReleaseName), the requester's stale entry dropped on
+\* the EXISTS path, flags refreshed / entry repositioned on the IN_QUEUE and ALREADY_OWNER paths -- so an
+\* allocation failure later in the same request reports NoMemory although the queue has changed.
+Dev_OomKeepsQueueChange(s, ser, kind, n, f) ==
+  LET q == QOf(queue, n)
+      q2 == IF kind = "req" THEN Acquire(q, s, Flags(f)).q ELSE Without(q, s) IN
+  /\ CanTalk(s) /\ cst[s] = "active" /\ NameClass(n) = "ok"
+  /\ IF kind = "req" THEN q # <<>> /\ Acquire(q, s, Flags(f)).w = NoSlot /\ HeldCount(queue, s) < cfg.maxNames
+     ELSE q # <<>> /\ InQ(q, s) /\ q[1].s # s
+  /\ queue' = PutQ(queue, n, q2)
+  /\ out' = <<To(s, Msg(3, BUS, <<>>, 0, ser, <<>>, <<>>, <<>>, E_NoMemory, <<>>, <<>>, 1, 0, "errtext"))>>
+  /\ UNCHANGED <<cfg, cst, dying, uid, uname, everNames, rules, pend, mon>>
+
+\* KNOWN DEFECT (deviation OomHelloHalfDone): bus_driver_handle_hello completes the connection (unique name, policy,
+\* counters) before the steps that can still fail; when one of them runs out of memory the caller gets NoMemory but
+\* the connection stays registered under its new name -- without the name being announced, owned or told to it.
+Dev_OomHelloHalfDone(s, ser, name) ==
+  /\ cst[s] = "incomplete" /\ name \notin everNames
+  /\ cst' = [cst EXCEPT ![s] = "active"] /\ uname' = [uname EXCEPT ![s] = name] /\ everNames' = everNames \cup {name}
+  /\ out' = <<To(s, Msg(3, BUS, <<>>, 0, ser, <<>>, <<>>, <<>>, E_NoMemory, <<>>, <<>>, 1, 0, "errtext"))>>
+  /\ UNCHANGED <<cfg, dying, uid, queue, rules, pend, mon>>
 
 \* bytes that are not a valid message, or a message over max_message_size: the sender is disconnected, nothing else
 Corrupt(s) == /\ cst[s] # "absent" /\ Kill(s) /\ out' = <<>>
